@@ -4,6 +4,7 @@ import (
 	"encoding/json"
 	"fmt"
 	"os"
+	"runtime/pprof"
 	"strings"
 
 	"verif/lib"
@@ -58,6 +59,11 @@ func build(c *lib.Ctx, d CheckDef) []*sched.Scenario {
 // Main runs a txpipe check.
 func Main(d CheckDef) {
 	run := func(c *lib.Ctx) {
+		if pf := os.Getenv("VERIF_CPUPROFILE"); pf != "" {
+			f, _ := os.Create(pf)
+			pprof.StartCPUProfile(f)
+			defer pprof.StopCPUProfile()
+		}
 		scs := build(c, d)
 		if dbg := os.Getenv("VERIF_DEBUG_SCENARIO"); dbg != "" {
 			for _, sc := range scs {
